@@ -167,12 +167,12 @@ func cyclicPrism(c *hlib.Ctx) mesh3 {
 			return res
 		}
 		poly = pick()
-		label = fmt.Sprintf("cyclic(circle N=%d k=%d)", N, len(poly))
+		label = fmt.Sprintf("cyclic(circle,N=%d,k=%d)", N, len(poly))
 		if kind >= 3 {
 			for tries := 0; tries < 60 && bothAbovePi(poly, 0) == 0; tries++ {
 				poly = pick()
 			}
-			label = fmt.Sprintf("cyclic(circle-directed N=%d k=%d)", N, len(poly))
+			label = fmt.Sprintf("cyclic(circle-directed,N=%d,k=%d)", N, len(poly))
 		}
 	case kind == 6:
 		// isosceles trapezoid / stack of trapezoids symmetric about the y axis: (+-a_i, h_i) all on one
@@ -208,7 +208,7 @@ func cyclicPrism(c *hlib.Ctx) mesh3 {
 			poly = append(poly, [2]float64{cx + rad*math.Cos(t), cy + rad*math.Sin(t)})
 		}
 		exactPts = false
-		label = fmt.Sprintf("cyclic(regular n=%d)", n)
+		label = fmt.Sprintf("cyclic(regular,n=%d)", n)
 	}
 	// scale by a power of two (exact), choose the height, the fan apex and the axis
 	sc := math.Ldexp(1, c.Rng.Intn(9)-6)
